@@ -129,11 +129,49 @@ def oracle(ctx, deep):
             continue
         secrets = [("a word of the list", w.encode()) for w in c["list"] if len(w.encode()) >= 3]
         check(a, secrets, {"list": c["list"], "line": "wordlist " + wlgen.words_tokens(c["list"]), "observed": a[-400:]})
+    # output that is switched on from outside: every environment variable the library source consults is set, and the
+    # cases are run again (the pinned source consults none)
+    gates = core.env_gates()
+    ctx.count("environment_variables_consulted_by_the_source", len(gates))
+    if gates and not ctx.violations:
+        env = {g: "1" for g in gates}
+        gl = [(meta, chargen.chargen_line(meta["_recipe"], meta["budget"], meta["_words"])) for meta, a, b in getattr(ctx, "gen_results", [])[:1500]]
+        res, _ = core.run_impl(["e%d %s" % (i, l) for i, (m, l) in enumerate(gl)], extra_env=env)
+        for i, (meta, l) in enumerate(gl):
+            a = res.get("e%d" % i)
+            if a is None:
+                continue
+            ctx.evaluations += 1
+            d = chargen.parse_password(a.rsplit(" stdout=", 1)[0])
+            secrets = secrets_of_password(d)
+            for c in rejected_candidates(meta["_recipe"], meta["budget"], meta["_words"]):
+                if len(c) >= 3:
+                    secrets.append(("a rejected candidate", c))
+            check(a, secrets, {"recipe": meta["recipe"], "line": l, "observed": a[-400:], "env": env})
+            if ctx.violations:
+                return
+        wl = [(c, wlgen.wlgen_line(c["list"], c["length"], c["sep"], c["cap"], c["budget"], c["words"], shadow=c.get("shadow"))) for c, a, b in getattr(ctx, "wl_results", [])[:600]]
+        res, _ = core.run_impl(["e%d %s" % (i, l) for i, (c, l) in enumerate(wl)], extra_env=env)
+        for i, (c, l) in enumerate(wl):
+            a = res.get("e%d" % i)
+            if a is None:
+                continue
+            ctx.evaluations += 1
+            order, titles, rest = wlgen.parse_pre(a)
+            d = chargen.parse_password(rest.rsplit(" stdout=", 1)[0])
+            secrets = secrets_of_password(d)
+            if order and order != "0":
+                secrets += [("a word of the list", core.unhx(x)) for x in order.split(",")[1:] if len(core.unhx(x)) >= 3]
+            check(a, secrets, {"case": c["meta"], "line": l, "observed": a[-400:], "env": env})
+            if ctx.violations:
+                return
 
 
 def replay(v):
     line = "r " + v["line"]
-    r, _ = core.run_impl([line])
+    if v.get("env"):
+        print("environment:", v["env"])
+    r, _ = core.run_impl([line], extra_env=v.get("env"))
     print(line[:400])
     print("->", (r.get("r") or "")[-600:])
     core.replay_shared_list(v["line"])
